@@ -3,8 +3,11 @@ package main
 import (
 	"fmt"
 	"go/types"
+	"math"
+	"math/big"
 	"regexp"
 	"sort"
+	"strconv"
 	"strings"
 	"sync"
 
@@ -941,6 +944,38 @@ func (c *Ctx) opsxRun() []*opsVerdict {
 			}
 		}()
 	}
+	// comparison cells on constants: every ordered pair of boundary constants of one type (extremes, zero, -0, ±Inf,
+	// NaN, the empty string, date-times at the zero time, the epoch, either side of the range a 64-bit nanosecond
+	// count can hold, 9999-12-31; time-span extremes) x every comparison, and - as the calculator does for `x = x` -
+	// THE SAME variant object as both operands, also as the searched value of a list that holds it: the answer is what
+	// the host comparison of that type gives, which makes the comparisons mutually consistent on every pair
+	for _, manager := range managers {
+		manager := manager
+		wg.Add(1)
+		go func() {
+			defer wg.Done()
+			h := c.newVxHarness(manager)
+			v := &opsVerdict{key: fmt.Sprintf("variants.%s#comparison-constants", manager), pos: c.Pos(c.MustFunc(pkgVariants, "", "New"+manager).Pos())}
+			defer func() {
+				if r := recover(); r != nil {
+					a, ok := r.(mAbort)
+					if !ok {
+						panic(r)
+					}
+					v.undec = a.why
+				}
+				mu.Lock()
+				all = append(all, v)
+				mu.Unlock()
+			}()
+			if h.fault != "" {
+				v.undec = h.fault
+				return
+			}
+			h.m.external = timeConstModel
+			opsCompareConstants(c, h, manager, oracle, v)
+		}()
+	}
 	// the result of an operator is a value of its own: what a caller does with a returned variant (it may keep it
 	// as an accumulator and set it) never shows in a later result. Every operator × every pair of operand types,
 	// Null included: call, store something else in the result through the exported setters, call again on fresh
@@ -1052,7 +1087,7 @@ func (c *Ctx) opsxRun() []*opsVerdict {
 
 func init() {
 	register(&Rule{ID: "OPS.model", Floor: 44,
-		Doc: "every operator of both managers evaluated abstractly on variants with symbolic payloads: per first-operand type the result tag and host expression over (x, converted y) equal the statement's matrix, the second operand goes through Convert to the first operand's type, value-dependent branches are explored both ways (zero / range guards become error outcomes, boolean cells truth tables), undefined cells end in errors, Null operands follow the Null policy; the result of every operator for every pair of operand types (Null included) is a variant of its own - storing something else in a returned result never shows in the answer to the same call on fresh operands",
+		Doc: "every operator of both managers evaluated abstractly on variants with symbolic payloads: per first-operand type the result tag and host expression over (x, converted y) equal the statement's matrix, the second operand goes through Convert to the first operand's type, value-dependent branches are explored both ways (zero / range guards become error outcomes, boolean cells truth tables), undefined cells end in errors, Null operands follow the Null policy; the result of every operator for every pair of operand types (Null included) is a variant of its own - storing something else in a returned result never shows in the answer to the same call on fresh operands; comparison and membership cells on every ordered pair of boundary constants of one type (NaN, ±Inf, -0, integer and time-span extremes, date-times at the zero time, the epoch, either side of the 64-bit nanosecond range, 9999-12-31) and with one variant object as both operands answer as the host comparison does",
 		Run: func(c *Ctx) []*Obligation {
 			o := newObl("OPS.model")
 			for _, v := range c.opsxRun() {
@@ -1151,4 +1186,317 @@ func cmpEval(e string, ord string) (bool, bool) {
 		return cmpEval(in, ord)
 	}
 	return false, false
+}
+
+// ---- comparison cells on constants ---------------------------------------------------------------------------
+
+var reTimeUnixConst = regexp.MustCompile(`^time\.Unix\((-?[0-9]+),0\)$`)
+
+func timeConstSecs(a mv) (int64, bool) {
+	if i, ok := a.(mIface); ok {
+		a = i.v
+	}
+	if sy, ok := a.(*mSym); ok {
+		if mm := reTimeUnixConst.FindStringSubmatch(sy.name); mm != nil {
+			n, err := strconv.ParseInt(mm[1], 10, 64)
+			return n, err == nil
+		}
+	}
+	return 0, false
+}
+
+// timeConstModel gives the host's meaning to the methods of time.Time on the constants time.Unix(s, 0): instants
+// compare as their seconds counts do; the nanosecond / microsecond / millisecond counts are computed in 64-bit
+// arithmetic and wrap exactly as the host's do (UnixNano is only meaningful between the years 1678 and 2262);
+// the difference of two instants saturates at the extremes of a time span.
+func timeConstModel(m *mach, fn *ssa.Function, args []mv) (mv, bool) {
+	if !strings.HasPrefix(fnFullName(fn), "time.Time.") || len(args) == 0 {
+		return nil, false
+	}
+	s0, ok := timeConstSecs(args[0])
+	if !ok {
+		return nil, false
+	}
+	if len(args) == 1 {
+		switch fn.Name() {
+		case "Unix":
+			return s0, true
+		case "UnixNano":
+			k := int64(1000000000)
+			return s0 * k, true
+		case "UnixMicro":
+			k := int64(1000000)
+			return s0 * k, true
+		case "UnixMilli":
+			k := int64(1000)
+			return s0 * k, true
+		case "IsZero":
+			return s0 == zeroTimeUnixSeconds, true
+		}
+		return nil, false
+	}
+	s1, ok := timeConstSecs(args[1])
+	if !ok || len(args) != 2 {
+		return nil, false
+	}
+	switch fn.Name() {
+	case "Equal":
+		return s0 == s1, true
+	case "Before":
+		return s0 < s1, true
+	case "After":
+		return s0 > s1, true
+	case "Compare":
+		switch {
+		case s0 < s1:
+			return int64(-1), true
+		case s0 > s1:
+			return int64(1), true
+		}
+		return int64(0), true
+	case "Sub":
+		d := new(big.Int).Mul(new(big.Int).Sub(big.NewInt(s0), big.NewInt(s1)), big.NewInt(1000000000))
+		switch {
+		case d.Cmp(big.NewInt(math.MaxInt64)) > 0:
+			return int64(math.MaxInt64), true
+		case d.Cmp(big.NewInt(math.MinInt64)) < 0:
+			return int64(math.MinInt64), true
+		}
+		return d.Int64(), true
+	}
+	return nil, false
+}
+
+// opsConst is one constant of a variant type with its place in the host ordering of that type.
+type opsConst struct {
+	show string
+	mk   func() mv
+	num  float64 // Float / Double
+	n    int64   // Integer / Long / TimeSpan / DateTime (seconds) / Boolean (0, 1)
+	s    string  // String
+}
+
+// opsConstRel: how the host orders two constants of type t: "<", "==", ">" or "unordered" (a NaN on either side).
+func opsConstRel(t string, a, b opsConst) string {
+	switch t {
+	case "Float", "Double":
+		switch {
+		case a.num != a.num || b.num != b.num:
+			return "unordered"
+		case a.num < b.num:
+			return "<"
+		case a.num > b.num:
+			return ">"
+		}
+		return "=="
+	case "String":
+		switch {
+		case a.s < b.s:
+			return "<"
+		case a.s > b.s:
+			return ">"
+		}
+		return "=="
+	}
+	switch {
+	case a.n < b.n:
+		return "<"
+	case a.n > b.n:
+		return ">"
+	}
+	return "=="
+}
+
+var opsCmpAtoms = map[string][3]string{
+	"Equal": {"x", "==", "c2"}, "NotEqual": {"x", "!=", "c2"}, "Less": {"x", "<", "c2"}, "LessEqual": {"x", "<=", "c2"},
+	"More": {"c2", "<", "x"}, "MoreEqual": {"c2", "<=", "x"},
+}
+
+var opsCmpSigns = map[string]string{"Equal": "=", "NotEqual": "<>", "Less": "<", "LessEqual": "<=", "More": ">", "MoreEqual": ">="}
+
+func opsCompareConstants(c *Ctx, h *vxHarness, manager string, oracle map[string]map[string]cellSpec, v *opsVerdict) {
+	bad := func(format string, a ...interface{}) {
+		if v.bad == "" {
+			v.bad = fmt.Sprintf(format, a...)
+		}
+	}
+	ints := func(t string, ns ...int64) []opsConst {
+		var out []opsConst
+		for _, n := range ns {
+			n := n
+			out = append(out, opsConst{show: fmt.Sprintf("%s %d", t, n), n: n, mk: func() mv { return h.variant(t, n) }})
+		}
+		return out
+	}
+	floats := func(t string, fs ...float64) []opsConst {
+		var out []opsConst
+		for _, f := range fs {
+			f := f
+			out = append(out, opsConst{show: fmt.Sprintf("%s %v", t, f), num: f, mk: func() mv { return h.variant(t, f) }})
+		}
+		if math.Signbit(fs[0]) && fs[0] == 0 {
+			out[0].show = t + " -0"
+		}
+		return out
+	}
+	timeT := c.MustFunc(pkgVariants, "", "VariantFromDateTime").Params[0].Type()
+	dates := func(named map[int64]string, ss ...int64) []opsConst {
+		var out []opsConst
+		for _, s := range ss {
+			s := s
+			out = append(out, opsConst{show: fmt.Sprintf("DateTime %s (time.Unix(%d, 0))", named[s], s), n: s, mk: func() mv {
+				return h.variant("DateTime", &mSym{name: fmt.Sprintf("time.Unix(%d,0)", s), typ: timeT, nonNil: true})
+			}})
+		}
+		return out
+	}
+	// the last / first whole seconds whose nanosecond count fits 64 bits: 2262-04-11T23:47:16Z and 1677-09-21T00:12:44Z
+	const nanoMaxSec, nanoMinSec = int64(math.MaxInt64 / 1000000000), int64(math.MinInt64 / 1000000000)
+	dateNames := map[int64]string{zeroTimeUnixSeconds: "0001-01-01T00:00:00Z", nanoMinSec - 1: "1677-09-21T00:12:43Z", nanoMinSec: "1677-09-21T00:12:44Z",
+		-1: "1969-12-31T23:59:59Z", 0: "1970-01-01T00:00:00Z", 1709164800: "2024-02-29T00:00:00Z", nanoMaxSec: "2262-04-11T23:47:16Z", nanoMaxSec + 1: "2262-04-11T23:47:17Z",
+		253402300799: "9999-12-31T23:59:59Z", -12219292800: "1582-10-15T00:00:00Z", 32503680000: "3000-01-01T00:00:00Z"}
+	strs := func(ss ...string) []opsConst {
+		var out []opsConst
+		for _, s := range ss {
+			s := s
+			out = append(out, opsConst{show: fmt.Sprintf("String %q", s), s: s, mk: func() mv { return h.variant("String", lit(s)) }})
+		}
+		return out
+	}
+	inf := math.Inf(1)
+	consts := map[string][]opsConst{
+		"Integer":  ints("Integer", 0, 1, -1, 5, math.MaxInt64, math.MinInt64),
+		"Long":     ints("Long", 0, -1, 7, math.MaxInt32+1, math.MaxInt64, math.MinInt64),
+		"Float":    floats("Float", math.Copysign(0, -1), 0, 1.5, -1.5, inf, -inf, math.NaN(), math.MaxFloat32),
+		"Double":   floats("Double", math.Copysign(0, -1), 0, 2.5, -2.5, inf, -inf, math.NaN(), math.MaxFloat64, math.SmallestNonzeroFloat64),
+		"String":   strs("", "a", "A", "b", "ab", "ж", "10", "9"),
+		"TimeSpan": ints("TimeSpan", 0, 1, -1, 1500, math.MaxInt64, math.MinInt64),
+		"DateTime": dates(dateNames, zeroTimeUnixSeconds, nanoMinSec-1, nanoMinSec, -1, 0, 1709164800, nanoMaxSec, nanoMaxSec+1, 253402300799, -12219292800, 32503680000),
+		"Boolean": {{show: "Boolean false", n: 0, mk: func() mv { return h.variant("Boolean", false) }},
+			{show: "Boolean true", n: 1, mk: func() mv { return h.variant("Boolean", true) }}},
+	}
+	render := func(r mv, out mOutcome) string {
+		if out.kind == "panic" {
+			return "panic: " + out.why
+		}
+		tp, ok := r.(mTuple)
+		if out.kind != "ok" || !ok || len(tp) != 2 {
+			return "?" + out.why
+		}
+		if _, isNil := tp[1].(mNilT); !isNil {
+			return "error"
+		}
+		if _, isNil := tp[0].(mNilT); isNil {
+			return "neither a result nor an error"
+		}
+		tag := h.typeOf(tp[0])
+		if tag == "Null" {
+			return "Null"
+		}
+		return tag + " " + h.payloadOf(tp[0])
+	}
+	judge := func(where, got, want, why string) {
+		v.runs++
+		switch {
+		case strings.HasPrefix(got, "?"):
+			if v.undec == "" {
+				v.undec = where + ": " + got[1:]
+			}
+		case got != want && !(want == "error" && strings.HasPrefix(got, "error")):
+			if got != "Boolean true" && got != "Boolean false" && got != "error" && got != "Null" && !strings.HasPrefix(got, "panic") && !strings.HasPrefix(got, "neither") {
+				if v.undec == "" {
+					v.undec = where + ": the answer " + got + " is outside the model"
+				}
+				return
+			}
+			bad("%s gives %s; %s", where, got, why)
+		}
+	}
+	cmpOps := []string{"Equal", "NotEqual", "Less", "LessEqual", "More", "MoreEqual"}
+	relWords := map[string]string{"<": "is less than", "==": "equals", ">": "is greater than", "unordered": "is NaN or faces a NaN, unordered with"}
+	for _, t := range []string{"Integer", "Long", "Float", "Double", "String", "TimeSpan", "DateTime", "Boolean"} {
+		cs := consts[t]
+		for i, a := range cs {
+			for j, b := range cs {
+				if c.Tier != "thorough" && t != "DateTime" && t != "Double" && t != "Float" && i != j && (i+j)%2 == 0 {
+					continue // the quick tier runs every pair of the types whose host comparison is not a plain integer / string one
+				}
+				rel := opsConstRel(t, a, b)
+				for _, identical := range []bool{false, true} {
+					if identical && i != j {
+						continue
+					}
+					for _, op := range cmpOps {
+						h.m.steps = 0
+						fn := c.lookupMethod(h.mgrT, op)
+						if fn == nil {
+							continue
+						}
+						v1 := a.mk()
+						v2 := v1
+						where := fmt.Sprintf("%s.%s(v, v) with one variant v = %s as both operands (as in `x %s x`)", manager, op, a.show, opsCmpSigns[op])
+						if !identical {
+							v2 = b.mk()
+							where = fmt.Sprintf("%s.%s(%s, %s)", manager, op, a.show, b.show)
+						}
+						got := render(h.m.Call(fn, h.mgr, v1, v2))
+						if _, defined := oracle[op][t]; !defined {
+							judge(where, got, "error", "the statement does not define "+opsCmpSigns[op]+" for "+t+": an undefined operation yields an error")
+							continue
+						}
+						want := cmpTruth(opsCmpAtoms[op], rel)
+						why := fmt.Sprintf("the host comparison of type %s gives %v (the first %s the second)", t, want, relWords[rel])
+						switch op {
+						case "LessEqual":
+							why += "; a<=b iff a<b or a=b"
+						case "MoreEqual":
+							why += "; a>=b iff a>b or a=b"
+						case "NotEqual":
+							why += "; a<>b iff not a=b"
+						}
+						judge(where, got, fmt.Sprintf("Boolean %v", want), why)
+					}
+				}
+			}
+			// membership: the searched variant itself is an element of the list / an equal variant is
+			if _, defined := oracle["Equal"][t]; defined {
+				for _, identical := range []bool{true, false} {
+					h.m.steps = 0
+					x := a.mk()
+					el := x
+					where := fmt.Sprintf("%s.In([%s, v, %s], v) with the searched variant v = %s itself in the list", manager, cs[(i+1)%len(cs)].show, cs[(i+2)%len(cs)].show, a.show)
+					if !identical {
+						el = a.mk()
+						where = fmt.Sprintf("%s.In([%s, %s, %s], %s)", manager, cs[(i+1)%len(cs)].show, a.show, cs[(i+2)%len(cs)].show, a.show)
+					}
+					list, out := h.m.Call(c.MustFunc(pkgVariants, "", "VariantFromArray"), mSlice{[]mv{cs[(i+1)%len(cs)].mk(), el, cs[(i+2)%len(cs)].mk()}})
+					if out.kind != "ok" {
+						continue
+					}
+					want := false
+					for _, k := range []int{i, (i + 1) % len(cs), (i + 2) % len(cs)} {
+						if opsConstRel(t, cs[k], a) == "==" {
+							want = true
+						}
+					}
+					got := render(h.m.Call(c.lookupMethod(h.mgrT, "In"), h.mgr, list, x))
+					judge(where, got, fmt.Sprintf("Boolean %v", want), fmt.Sprintf("membership is true exactly when some element equals the searched value by the host comparison of type %s: %v", t, want))
+				}
+			}
+		}
+	}
+	// one Null variant as both operands: Null equals Null; every other comparison propagates it
+	for _, op := range cmpOps {
+		h.m.steps = 0
+		n := h.variant("Null", nil)
+		want := "Null"
+		switch op {
+		case "Equal":
+			want = "Boolean true"
+		case "NotEqual":
+			want = "Boolean false"
+		}
+		judge(fmt.Sprintf("%s.%s(v, v) with one Null variant v as both operands", manager, op), render(h.m.Call(c.lookupMethod(h.mgrT, op), h.mgr, n, n)), want,
+			"Null propagates through every operator except equality and inequality, where Null equals Null: "+want)
+	}
 }
